@@ -707,16 +707,25 @@ func (t *streamableHTTPClientTransport) connectGetSSE(ctx context.Context) error
 
 // Handle GET SSE event stream
 func (t *streamableHTTPClientTransport) handleGetSSEEvents(ctx context.Context, body io.ReadCloser) error {
-	scanner := bufio.NewScanner(body)
+	// A bufio.Reader puts no limit on the length of a line; a bufio.Scanner gives up at 64 KiB, which
+	// would silently end the stream on one large frame.
+	reader := bufio.NewReader(body)
 	var eventID, eventData string
 
-	for scanner.Scan() {
+	for {
+		line, err := reader.ReadString('\n')
+		if err != nil {
+			if err == io.EOF {
+				return nil
+			}
+			return fmt.Errorf("failed to read SSE event stream: %w", err)
+		}
 		select {
 		case <-ctx.Done():
 			return ctx.Err()
 		default:
 			// Process SSE line
-			line := scanner.Text()
+			line = strings.TrimRight(line, "\r\n")
 
 			// Skip empty lines
 			if line == "" {
@@ -740,12 +749,6 @@ func (t *streamableHTTPClientTransport) handleGetSSEEvents(ctx context.Context, 
 			}
 		}
 	}
-
-	if err := scanner.Err(); err != nil {
-		return fmt.Errorf("failed to read SSE event stream: %w", err)
-	}
-
-	return nil
 }
 
 // Process SSE event.
